@@ -77,6 +77,9 @@ class Check:
         dst = os.path.join(self.tmp, 'spec-' + family)
         if not os.path.isdir(dst):
             shutil.copytree(os.path.join(ROOT, 'spec', family), dst)
+            for f in glob.glob(os.path.join(ROOT, 'spec', 'common', '*.tla')):   # shared operator modules
+                if not os.path.exists(os.path.join(dst, os.path.basename(f))):
+                    shutil.copy(f, dst)
         return dst
 
     def tlc(self, family, module, cfg, workers=None, timeout=600, simulate=None, depth=None,
@@ -315,6 +318,8 @@ class Check:
         rc = 0
         os.makedirs(os.path.join(ROOT, 'replays'), exist_ok=True)
         os.makedirs(os.path.join(ROOT, 'evidence'), exist_ok=True)
+        for old in glob.glob(os.path.join(ROOT, 'replays', '%s-%s-*.json' % (self.prop, self.tier))):
+            os.remove(old)
         for k in self.known:
             print('KNOWN-FINDING: property=%s %s [%s]' % (self.prop, k['what'], k['sig']))
         seen = set()
